@@ -95,6 +95,16 @@ class Effects:
         for k, sites in self.direct.items():
             for s in sites:
                 s.owners = frozenset(self.public_roots(s.fn))
+                # a site that sits in a helper inlined into a function the documented API cannot reach belongs to whoever else
+                # reaches that helper
+                inl = getattr(s.ev, 'inlined', ()) or ()
+                if inl and s.owners == frozenset({k}) and '#' not in k and self.w.is_new_function(s.fn) \
+                        and not any(k in cs for c, cs in self.callees.items() if c != k):
+                    h = self.prog.functions.get(inl[-1])
+                    if h is not None:
+                        others = self.public_roots(h) - {k}
+                        if others:
+                            s.owners = frozenset(others)
 
     # ------------------------------------------------------------------ queries
     def all_sites(self) -> List[WriteSite]:
@@ -209,7 +219,7 @@ class Effects:
         k0 = self.key(fn)
         if not private(k0):
             return {k0}
-        roots, seen, stack = set(), set(), [k0]
+        roots, orphans, seen, stack = set(), set(), set(), [k0]
         while stack:
             k = stack.pop()
             if k in seen:
@@ -217,13 +227,17 @@ class Effects:
             seen.add(k)
             callers = [c for c, cs in self.callees.items() if k in cs and c != k]
             if not callers:
-                roots.add(k)
+                name = k.split('#')[0].rsplit('.', 1)[-1]
+                (roots if (name.startswith('_') and not name.startswith('__')) or k == k0 else orphans).add(k)
             for c in callers:
                 if private(c):
                     stack.append(c)
                 else:
                     roots.add(c)
-        return roots
+        # a public function that is new to the API and that no documented function calls is not reachable from the documented API:
+        # a helper it shares with a documented function belongs to that function (a new `update()` built on the constructor's
+        # `_update_from`); a site only such additions reach has no other owner and keeps them
+        return roots if roots else orphans
 
     def callers_of(self, fn: FuncInfo) -> List[Tuple[str, Event]]:
         k0 = self.key(fn)
